@@ -217,6 +217,16 @@ def judge_request(step, rep, pre, post, names, sh, case):
             return None
         if got_cbs != want_cbs:
             sh.violation("callbacks", "%s: callbacks %r, expected %r" % (what, got_cbs, want_cbs), case)
+        # the request that a callback refused has declared nothing: the layer's [types], its directory and its SBOM files are what they were
+        def types_of(v):
+            try:
+                return layersim.parse_toml(v["toml"])[0] if isinstance(v["toml"], bytes) else v["toml"]
+            except Exception:
+                return v["toml"]
+        sh.count("refused_requests_compared")
+        if (types_of(v0), v0["dir"], v0["sboms"]) != (types_of(v1), v1["dir"], v1["sboms"]):
+            sh.violation("refused-request-changed-the-layer", "%s was refused by a callback (%s), but the layer changed: [types] %r -> %r%s%s" % (what, rep["detail"][:120], types_of(v0), types_of(v1),
+                         "" if v0["dir"] == v1["dir"] else "; directory contents differ", "" if v0["sboms"] == v1["sboms"] else "; SBOM files differ"), case)
         return ("error",)
     if outcome[0] == "error":
         sh.violation("error-swallowed", "%s succeeded (%r) although a callback returned an error" % (what, rep["state"]), case)
